@@ -150,14 +150,38 @@ func chainOps() []op {
 	return ops
 }
 
-func runChains(r *engine.Run) {
-	depth := 3
-	if r.Thorough() {
-		depth = 4
+// chainOps4 is the reduced alphabet of the depth-4 search of the thorough tier.
+func chainOps4() []op {
+	var ops []op
+	for _, obj := range []string{"o", "p"} {
+		for _, d := range []dspec{dValue1, dDataAll, dDataRO, dAccAll, dGetOnly, dEnumOff, dConfOff, dWriteOff} {
+			ops = append(ops, op{kind: "def", obj: obj, name: "x", d: d})
+		}
+		ops = append(ops, op{kind: "def", obj: obj, name: "y", d: dDataAll}, op{kind: "def", obj: obj, name: "y", d: dAccAll},
+			op{kind: "def", obj: obj, name: "0", d: dDataAll})
+		ops = append(ops, op{kind: "put", obj: obj, name: "x", v: 1}, op{kind: "put", obj: obj, name: "x", v: 2},
+			op{kind: "put", obj: obj, name: "y", v: 1}, op{kind: "put", obj: obj, name: "0", v: 1})
+		for _, name := range []string{"x", "y", "0"} {
+			ops = append(ops, op{kind: "del", obj: obj, name: name})
+		}
+		ops = append(ops, op{kind: "pe", obj: obj}, op{kind: "seal", obj: obj}, op{kind: "freeze", obj: obj})
+		ops = append(ops,
+			op{kind: "defs", obj: obj, name: "x", d: dDataAll, name2: "y", d2: dAccAll},
+			op{kind: "defs", obj: obj, name: "y", d: dValue1, name2: "x", d2: dContra})
 	}
-	m := &machine{r: r, tag: "chains", setup: `p = {}; o = Object.create(p); __extra = null; __log = []; 0`,
-		model: chainWorld, objs: []string{"o", "p"}, names: []string{"x", "y", "0"}, ops: chainOps(), maxDepth: depth}
-	m.run()
+	return append(ops, op{kind: "create0", obj: "o"}, op{kind: "create", obj: "o", name: "x", d: dDataAll, name2: "y", d2: dGetDflt})
+}
+
+func runChains(r *engine.Run) {
+	const setup = `p = {}; o = Object.create(p); __extra = null; __log = []; 0`
+	if r.ReplayKey == "" || strings.HasPrefix(r.ReplayKey, "chains/") {
+		m := &machine{r: r, tag: "chains", setup: setup, model: chainWorld, objs: []string{"o", "p"}, names: []string{"x", "y", "0"}, ops: chainOps(), maxDepth: 3}
+		m.run()
+	}
+	if r.Thorough() && (r.ReplayKey == "" || strings.HasPrefix(r.ReplayKey, "chains4/")) {
+		m := &machine{r: r, tag: "chains4", setup: setup, model: chainWorld, objs: []string{"o", "p"}, names: []string{"x", "y", "0"}, ops: chainOps4(), maxDepth: 4}
+		m.run()
+	}
 }
 
 // ---- insertion order: one object, three names, only put / delete / one non-enumerable definition, deeper histories ----
